@@ -11,7 +11,7 @@ CONSTANTS
   Budget = 0
   LateKinds = {"write"}
   EarlyStop = FALSE
-  MaxDepth = 0
+  MaxDepth = 22
 VIEW View
 SYMMETRY Sym
 CONSTRAINT Bounded
